@@ -29,7 +29,7 @@ vacuity twin, seeded counterexample search, exact re-check, replay on the real M
 
 Requested core diff (would remove the patching): `ffchain.run_chain(e, ob, extra, timeout, on_group=None)`
 calling `on_group(name, row, E, R)` per group, and `cengine.decide(..., chain=ffchain.run_chain)`."""
-import itertools, threading, time
+import itertools, os, threading, time
 from . import ffchain, csmt, solvers, core
 from .ffchain import ChainFail
 from .solvers import I
@@ -351,13 +351,20 @@ def match_identity(e, kind, R, quad_cands, lin_cands, s):
     return found
 
 
-def signed_def(e, u):
-    """structured form (const, {atom: coef}) of the signed expression Enc.infer_bounds asserted for atom u
-    (`u == E (mod p)`, |E| < p/8, so the centred representative of u is exactly E): re-derived from the
-    purely linear rows and accepted only if it renders to the very string the Enc asserted"""
-    want = e.sexpr.get(u)
-    if want is None:
-        return None
+def _mag(e, a):
+    """bound on |centred representative| of atom a known statically to the Enc (None: unknown)"""
+    if a in e.srange:
+        lo, hi = e.srange[a]
+        return max(abs(lo), abs(hi))
+    b = e.bound(a)
+    return b - 1 if b < e.P // 2 else None
+
+
+def row_def(e, u):
+    """(const, {atom: coef}) with  sv(u) = const + sum coef*sv(atom)  over the INTEGERS, sv = centred
+    representative: taken from a purely linear row of the system all of whose coefficients are +-1 (limb-wise
+    sums and differences) and whose magnitude, by interval arithmetic over the Enc's static range facts,
+    stays below p (so the congruence mod p is an equation)."""
     rows = getattr(e, "_fecc_linrows", None)
     if rows is None:
         rows = e._fecc_linrows = {}
@@ -365,57 +372,53 @@ def signed_def(e, u):
             for a in lin:
                 rows.setdefault(a, []).append((const, lin))
     for const, lin in rows.get(u, []):
-        cu = lin[u]
-        if cu not in (1, -1):
+        if any(c not in (1, -1) for c in lin.values()) or len(lin) < 2:
             continue
-        for nested in (True, False):
-            parts = [I(-cu * const)] + [f"(* {I(-cu * c)} {e.sexpr.get(a, a) if nested else a})" for a, c in lin.items() if a != u]
-            if "(+ " + " ".join(parts) + ")" == want:
-                if not nested and any(a in e.sexpr for a in lin if a != u):
-                    # the string speaks of raw cell values of atoms that are themselves signed: not a
-                    # statement about centred representatives
-                    continue
-                return -cu * const, {a: -cu * c for a, c in lin.items() if a != u}
+        mags = [_mag(e, a) for a in lin]
+        if any(x is None for x in mags) or abs(const) + sum(mags) >= e.P:
+            continue
+        cu = lin[u]
+        return -cu * const, {a: -cu * c for a, c in lin.items() if a != u}
     return None
 
 
-def to_base_atoms(e, lin, const, depth=0):
-    """rewrite an integer linear form over centred representatives of atoms until no atom has a signed
-    definition; None if some definition cannot be recovered"""
-    out, c0 = {}, const
-    for a, k in lin.items():
-        if a in e.sexpr:
-            d = signed_def(e, a)
-            if d is None or depth > 6:
-                return None
-            sub = to_base_atoms(e, d[1], d[0], depth + 1)
-            if sub is None:
-                return None
-            c0 += k * sub[1]
-            for b, kb in sub[0].items():
-                out[b] = out.get(b, 0) + k * kb
-        else:
-            out[a] = out.get(a, 0) + k
-    return {a: k for a, k in out.items() if k}, c0
-
-
-def decompose_linear(e, lin, pool, grow=True):
-    """integer linear form {atom: coef} -> [(kk, vector)] with sum coef*atom == sum kk*V(vector) (mod m),
-    V(v) = sum base^i v_i; vectors from `pool`, remaining atoms must form whole new vectors (added to pool)"""
+def decompose_linear(e, lin, const, pool, grow=True):
+    """integer linear form const + sum coef*sv(atom)  ->  ([(kk, vector)], const') with the form equal to
+    const' + sum kk*V(vector) modulo m for every assignment, V(v) = sum base^i v_i. Vectors are taken from
+    `pool`; atoms left over are first rewritten through their defining +-1 rows (row_def), what is then
+    left must form whole new vectors (appended to pool). None if that fails."""
     m, base, n = params(e)
-    L = relift({(a,): c for a, c in lin.items()}, base, n, m)
-    rest = {k[0]: v for k, v in L.items()}
-    if any(v is None for v in rest.values()):
+    lin = {a: c for a, c in lin.items() if c % m}
+    for _ in range(4):
+        L = relift({(a,): c for a, c in lin.items()}, base, n, m)
+        rest = {k[0]: v for k, v in L.items()}
+        if any(v is None for v in rest.values()):
+            return None
+        taken = []
+        for v in pool:
+            if len(set(v)) == n and all(a in rest for a in v) and len({rest[a][0] for a in v}) == 1 and [rest[a][1] for a in v] == list(range(n)):
+                taken.append((rest[v[0]][0], v))
+                for a in v:
+                    del rest[a]
+        changed = False
+        for a in list(rest):
+            d = row_def(e, a)
+            if d is None:
+                continue
+            c = lin.pop(a)
+            const += c * d[0]
+            for b, kb in d[1].items():
+                lin[b] = lin.get(b, 0) + c * kb
+            changed = True
+        lin = {a: c for a, c in lin.items() if c % m}
+        if not changed:
+            break
+    else:
         return None
-    out = []
-    for v in pool:
-        if all(a in rest for a in v) and len({rest[a][0] for a in v}) == 1 and [rest[a][1] for a in v] == list(range(n)) and len(set(v)) == n:
-            out.append((rest[v[0]][0], v))
-            for a in v:
-                del rest[a]
     by = {}
     for a, (kk, ex) in rest.items():
         by.setdefault(kk, []).append((ex, a))
+    out = list(taken)
     for kk, lst in by.items():
         lst.sort()
         if len(lst) != n or [ex for ex, _ in lst] != list(range(n)):
@@ -423,15 +426,16 @@ def decompose_linear(e, lin, pool, grow=True):
         v = tuple(a for _, a in lst)
         if grow and v not in pool:
             pool.append(v)
+            e.__dict__.setdefault("_fecc_newvecs", set()).add(v)
         out.append((kk, v))
-    # ground re-check
+    # ground re-check against the (rewritten) form
     chk = {}
     for kk, v in out:
         for i, a in enumerate(v):
             chk[a] = chk.get(a, 0) + kk * base ** i
-    if set(chk) != set(lin) or any((chk[a] - lin[a]) % m for a in lin):
+    if set(a for a, c in chk.items() if c % m) != set(lin) or any((chk[a] - lin[a]) % m for a in lin):
         return None
-    return out
+    return out, const
 
 
 # ---- the chain for an extracted fecc system ------------------------------------------------------------
@@ -442,9 +446,33 @@ def _solve(e, ob, extra_lines, timeout):
     return r
 
 
-def cond_values(e, ob, c, honest_c, timeout):
+ALT = {}    # (op, curve) -> alternative admissible inputs (set by the part module): their honest runs serve as
+            # reachability witnesses for condition values the primary honest run does not exhibit
+
+
+def _alt_honest(e, extra_info):
+    """honest class assignments of the alternative inputs (lazy generator, cached on the Enc)"""
+    from . import cengine
+    cache = e.__dict__.setdefault("_fecc_alt", [])
+    for h in cache:
+        yield h
+    alts = ALT.get((extra_info.get("op"), (extra_info.get("params") or {}).get("curve")), [])
+    k = max(1, int(e.s.d["n"]).bit_length() - 1)
+    while len(cache) < len(alts):
+        ins = alts[len(cache)]
+        try:
+            s2 = cengine.extract("fecc", extra_info["op"], dict(extra_info.get("params") or {}), ins, k)
+            h = s2.honest_assign() if s2.d.get("honest_verify") else {}
+        except Exception:
+            h = {}
+        cache.append(h)
+        yield h
+
+
+def cond_values(e, ob, c, honest_c, timeout, extra_info):
     """non-zero values the condition atom c can take: subset of {1, P-1}; raises ChainFail when the system
-    does not confine c to {0, 1, -1}. Returns {value: vacuity witness seen}"""
+    does not confine c to {0, 1, -1}. Returns {value: reachability witness seen}. What is proved about c is
+    handed back to the Enc (static bound / signed range + an assertion), so later queries see it."""
     P = e.P
     cache = e.__dict__.setdefault("_fecc_cond", {})
     if c in cache:
@@ -459,14 +487,29 @@ def cond_values(e, ob, c, honest_c, timeout):
         if r.status != "unsat":
             raise ChainFail(f"the condition cell {c} of a conditional foreign-field gate is not confined to {{0, 1, -1}} by the system: {r.status}")
         cand = [1, P - 1]
+    cls = next((cl for cl, nm in e.vars.items() if nm == c), None)
     for v in cand:
         if honest_c == v:
             vals[v] = True
             continue
-        r = _solve(e, ob, [f"(assert (= {c} {v}))"], max(10, timeout // 2))
+        r = _solve(e, ob, [f"(assert (= {c} {v}))"], 10 if len(cand) > 1 else 5)
         if r.status == "unsat":
             continue
         vals[v] = r.status == "sat"
+        if not vals[v]:
+            for h in _alt_honest(e, extra_info):
+                if h.get(cls) == v:
+                    vals[v] = True
+                    break
+    if len(cand) == 2 and len(vals) <= 1:
+        # proved: c in {0, 1} or c in {0, -1} (or c = 0)
+        if 1 in vals or not vals:
+            e.set_bound(c, 2)
+            e.lines.append(f"(assert (or (= {c} 0) (= {c} 1)))")
+        else:
+            e.srange[c] = (-1, 0)
+            e.sexpr[c] = f"(ite (= {c} 0) 0 (- 1))"
+            e.lines.append(f"(assert (or (= {c} 0) (= {c} {P - 1})))")
     cache[c] = vals
     return vals
 
@@ -479,6 +522,7 @@ def run_chain_ecc(e, ob, extra_info, timeout=60):
     leftovers = [g for g in e.skipped if (g["gate"].rsplit(":", 1)[0], g["row"]) not in groups]
     if leftovers:
         raise ChainFail(f"skipped gates that are not foreign-field groups: {[g['gate'] for g in leftovers][:3]}")
+    e.fecc_ob = ob
     honest = e.s.honest_assign()
     hon_of = {nm: honest.get(cl, 0) for cl, nm in e.vars.items()}
     records = []
@@ -498,8 +542,9 @@ def run_chain_ecc(e, ob, extra_info, timeout=60):
         else:
             plain.append(key)
 
-    def run_view(keys, subst, guard):
-        """original chain on the groups `keys` under substitution; returns {key: R}"""
+    def run_view(keys, subst, guard, keep=lambda key: True):
+        """original chain on the groups `keys` under substitution; returns {key: R}. The hypothesis lines the
+        chain states (E = 0, R = m*t / single-block residue form) are kept for the groups selected by `keep`."""
         gates = [g for k in keys for g in groups[k]]
         view = View(e, gates, subst)
         _tls.collector = []
@@ -515,29 +560,43 @@ def run_chain_ecc(e, ob, extra_info, timeout=60):
         for tag, R in zip(order, col):
             nm, row = tag.rsplit("@", 1)
             Rs[(nm, int(row))] = R
-        for ln in view.lines:
-            if not (ln.startswith("(assert ") and ln.endswith(")")):
-                raise ChainFail("internal: unexpected line from the chain")
-            inner = ln[len("(assert "):-1]
-            e.lines.append(f"(assert (=> {guard} {inner}))" if guard != "true" else ln)
+        if all(keep(k) for k in keys):
+            for ln in view.lines:
+                if not (ln.startswith("(assert ") and ln.endswith(")")):
+                    raise ChainFail("internal: unexpected line from the chain")
+                inner = ln[len("(assert "):-1]
+                e.lines.append(f"(assert (=> {guard} {inner}))" if guard != "true" else ln)
+        elif any(keep(k) for k in keys):
+            raise ChainFail("internal: mixed keep/drop in one chain call")
         records.extend((a, b if guard == "true" else f"{b} [{guard}]", c_, d) for a, b, c_, d in recs)
         return Rs
 
+    def is_ec(key):
+        return any(pat in key[0] for pat in KIND_OF_NAME)
     todo = []      # (key, R, guard, s, vacuity)
-    if plain:
-        Rs = run_view(plain, {}, "true")
-        for k in plain:
-            todo.append((k, Rs[k], "true", 1, True))
+    # for the EC groups the chain's own hypothesis lines (E = 0 over 256-bit coefficients, R = m*t) are not
+    # handed on: the residue form below says the same modulo m (dropping hypotheses is sound)
+    for sel in (lambda k: not is_ec(k), is_ec):
+        ks = [k for k in plain if sel(k)]
+        if ks:
+            Rs = run_view(ks, {}, "true", keep=lambda k: not is_ec(k))
+            for k in ks:
+                todo.append((k, Rs[k], "true", 1, True))
     for c, keys in cond_groups.items():
-        vals = cond_values(e, ob, c, hon_of.get(c), timeout)
+        vals = cond_values(e, ob, c, hon_of.get(c), timeout, extra_info)
         if not vals:
-            raise ChainFail(f"the condition cell {c} of {keys} can never be non-zero: the gate is never enabled")
+            # solver: cond = 0 in every accepted assignment of THIS operation: the group states nothing here
+            records.append(("G", f"{keys}", f"condition cell {c} is 0 in every accepted assignment: gate never enabled in this operation", 0))
+            continue
         for v, vac in vals.items():
             s = 1 if v == 1 else -1
             guard = f"(= {c} {v})"
-            Rs = run_view(keys, {c: v}, guard)
-            for k in keys:
-                todo.append((k, Rs[k], guard, s, vac))
+            for sel in (lambda k: not is_ec(k), is_ec):
+                ks = [k for k in keys if sel(k)]
+                if ks:
+                    Rs = run_view(ks, {c: v}, guard, keep=lambda k: not is_ec(k))
+                    for k in ks:
+                        todo.append((k, Rs[k], guard, s, vac))
     # ---- (G): recognition. pass 1: vectors from product blocks of every group -----------------------
     pool = []
 
@@ -591,15 +650,32 @@ def run_chain_ecc(e, ob, extra_info, timeout=60):
     for key, R, guard, s, vac in todo:
         if guard != "true" or any(len(k) > 1 for k in R):
             continue
-        b0 = to_base_atoms(e, {k[0]: c for k, c in R.items() if k}, R.get((), 0))
-        if b0 is None:
+        dd = decompose_linear(e, {k[0]: c for k, c in R.items() if k}, R.get((), 0), pool)
+        if dd is None:
             continue
-        dec = decompose_linear(e, b0[0], pool)
-        if dec is None:
-            continue
+        dec, c0 = dd
+        b0 = (None, c0)
         r = lincomb(e, sorted(((kk, res(e, v)) for kk, v in dec), key=lambda t: str(t[1])), b0[1] - sum(kk for kk, _ in dec))
         e.lines.append(f"(assert (= {r if not isinstance(r, int) else I(r)} 0))")
         records.append(("L", f"{key[0]}@{key[1]}", "linear group on residues: " + " ".join(f"{kk:+d}*res(v{pool.index(v)})" for kk, v in dec), 0))
+        # lemma cut for zero tests of a well-formed vector z of the group (zero has a unique well-formed
+        # representation):  z is limb-wise the representation of zero  <=>  the rest of the group sums to 0 mod m
+        lb = int(e.extra["log2_base"])
+        msl = m.bit_length() - (n - 1) * lb
+        zl = [((m - 1) >> (lb * i)) & ((1 << lb) - 1) for i in range(n)]
+        for kk, v in dec:
+            if kk not in (1, -1) or v not in getattr(e, "_fecc_newvecs", ()) or not all(e.bound(a) <= (1 << (lb if i < n - 1 else msl)) for i, a in enumerate(v)):
+                continue
+            others = sorted(((-kk * k2, res(e, v2)) for k2, v2 in dec if v2 != v), key=lambda t: str(t[1]))
+            rr = lincomb(e, others, -kk * (c0 - sum(k2 for k2, _ in dec)))     # res(v) == rr (mod m)
+            e.zero_rep_lemma(list(v))
+            zeq = "(and " + " ".join(f"(= {a} {zl[i]})" for i, a in enumerate(v)) + ")"
+            sem = f"(= {rr if not isinstance(rr, int) else I(rr)} 0)"
+            miss = prove_cuts(e, [(f"zero-test of v{pool.index(v)} in {key[0]}@{key[1]}", f"(= {zeq} {sem})")], timeout=max(10, timeout // 3))
+            records.append(("Z", f"{key[0]}@{key[1]}", f"zero-test cut for v{pool.index(v)}: {'not proved' if miss else 'proved'}", 0))
+            if not miss:
+                b = discover_bit(e, ob, v, zl, zeq, sem, hon_of, extra_info, timeout)
+                records.append(("Z", f"{key[0]}@{key[1]}", f"bit cell deciding the zero test of v{pool.index(v)}: {b}", 0))
     # pass 3: compare with the textbook identity, emit the residue-form hypothesis
     for key, R, guard, s, vac in todo:
         nm, row = key
@@ -666,7 +742,185 @@ def run_chain_ecc(e, ob, extra_info, timeout=60):
             f = e.modeq(terms, const, as_bool=True)
             e.lines.append(f"(assert (=> (= {c} {v}) {f}))")
     e.constraint = constraint
+    if os.environ.get("FECC_DEBUG"):
+        for r_ in records:
+            if r_[0] in ("G", "L", "H") or (isinstance(r_[3], float) and r_[3] > 2):
+                print("   fecc", r_, flush=True)
     return records
+
+
+_TOK = __import__("re").compile(r"[A-Za-z_][\w.]*")
+_KW = {"assert", "and", "or", "not", "ite", "true", "false", "let", "mod", "div", "abs", "Int", "Bool", "xor", "distinct",
+       "declare", "const", "define", "fun", "bvuge", "concat", "b0", "b1"}
+
+
+def _syms(line):
+    return set(_TOK.findall(line)) - _KW
+
+
+def sliced_text(e, formula, depth, fanout=3):
+    """A slice of the hypotheses relevant to `formula`: starting from its symbols, repeatedly (depth times)
+    (1) follow every kept symbol to its DEFINING assertion (the first assertion after its declaration that
+    mentions it: residue/quotient/product/sum definitions, a cell's domain), whatever its size, and
+    (2) follow non-implication assertions that touch a kept symbol and bring in at most `fanout` new symbols
+    (gadget rows, limb-wise sums; not a range-check decomposition reached from the limb it decomposes). Finally every assertion speaking only about kept symbols is included, plus all
+    declarations. Dropping assertions only weakens the hypotheses: unsat of the slice implies unsat of the
+    full query."""
+    idx = getattr(e, "_fecc_idx", None)
+    if idx is None or idx[0] != len(e.lines):
+        per = [(_syms(l) if l.startswith("(assert") else None) for l in e.lines]
+        defline, pending = {}, []
+        for i, l in enumerate(e.lines):
+            if l.startswith("(declare-const "):
+                pending.append(l.split()[1])
+            elif per[i] is not None and pending:
+                still = []
+                for sym_ in pending:
+                    if sym_ in per[i]:
+                        defline[sym_] = i
+                    else:
+                        still.append(sym_)
+                pending = still[-8:]
+        small = {}
+        for i, (l, sy) in enumerate(zip(e.lines, per)):
+            if sy and len(sy) <= 40 and not l.startswith("(assert (=>"):
+                for a in sy:
+                    small.setdefault(a, []).append(i)
+        idx = e._fecc_idx = (len(e.lines), per, defline, small)
+    _, per, defline, small = idx
+    keep = _syms(formula)
+    chosen = set()
+    frontier = set(keep)
+    for _ in range(depth):
+        new = set()
+        for a in frontier:
+            i = defline.get(a)
+            if i is not None and i not in chosen:
+                chosen.add(i)
+                new |= per[i] - keep
+            for j in small.get(a, ()):
+                if j not in chosen and len(per[j] - keep - new) <= fanout:
+                    chosen.add(j)
+                    new |= per[j] - keep
+        if not new:
+            break
+        keep |= new
+        frontier = new
+    out = []
+    for i, (l, sy) in enumerate(zip(e.lines, per)):
+        if sy is None:
+            if not l.startswith(";"):
+                out.append(l)
+        elif not sy or i in chosen or sy <= keep:
+            out.append(l)
+    return "(set-logic ALL)\n" + "\n".join(out) + "\n"
+
+
+def prove_cuts(e, cuts, timeout=60):
+    """Lemma cuts: every formula of `cuts` [(label, SMT Bool)] that the solver proves from the current
+    hypotheses (system, chain hypotheses, earlier cuts) is asserted, so that the operation's main query
+    only has to combine them. A formula that is not proved is simply not asserted (the main query then has
+    to find it out itself or produce the counterexample). Each cut is first tried on slices of the
+    hypotheses (sound: fewer hypotheses), then on all of them. Returns the labels that were not proved."""
+    ob = getattr(e, "fecc_ob", None)
+    missing = []
+    for label, f in cuts:
+        if f in ("true",):
+            continue
+        st, t0 = "unknown", time.time()
+        for depth, tmo in ((6, max(5, timeout // 6)), (16, max(5, timeout // 3)), (None, timeout)):
+            q = e.text([]) if depth is None else sliced_text(e, f, depth)
+            r = solvers.solve(q + f"(assert (not {f}))\n", timeout=tmo)
+            if ob is not None:
+                ob.queries += 1
+                ob.solver_s += r.time_s
+            if os.environ.get("FECC_DEBUG"):
+                print(f"   fecc cut {label} [depth {depth}, {q.count(chr(10))} lines]: {r.status} {r.solver} {r.time_s:.1f}s", flush=True)
+            if r.status == "unsat":
+                st = "unsat"
+                break
+            if r.status == "sat" and depth is None:
+                st = "sat"
+        if st == "unsat":
+            e.lines.append(f"(assert {f})")
+        else:
+            missing.append(label)
+    return missing
+
+
+def discover_bit(e, ob, vec, zl, zeq, sem, hon_of, extra_info, timeout):
+    """Find the cell B of the system with  B = 1 <=> (vec is limb-wise the representation of zero)  — the
+    output of the chip's zero test of `vec` — and assert  B = 1 <=> sem  once the solver has proved it.
+    Candidates: 0/1 cells whose honest value agrees with the test on the primary and the alternative honest
+    runs, nearest (in symbol-sharing distance from the limbs) first. Heuristic search, proved result."""
+    runs = [hon_of]
+    inv = {nm: cl for cl, nm in e.vars.items()}
+    for h in _alt_honest(e, extra_info):
+        runs.append({nm: h.get(cl) for nm, cl in inv.items()})
+        if len(runs) >= 5:
+            break
+    want = [int(all(h.get(a) == zl[i] for i, a in enumerate(vec))) for h in runs]
+    cands = [b for b in e.vars.values() if e.bound(b) <= 2 or b in e.bool_atoms]
+    cands = [b for b in cands if all(h.get(b) == w for h, w in zip(runs, want))]
+    if not cands:
+        return None
+    # distance from the limbs
+    per = [(_syms(l) if l.startswith("(assert") and not l.startswith("(assert (=>") else None) for l in e.lines]
+    keep, level = set(vec), {a: 0 for a in vec}
+    for d in range(1, 9):
+        add = set()
+        for sy in per:
+            if sy and len(sy) <= 8 and (sy & keep):
+                add |= sy - keep
+        for a in add:
+            level[a] = d
+        keep |= add
+        if not add:
+            break
+    cands.sort(key=lambda b: (level.get(b, 99), b))
+    # structural first choice: the per-limb tests r_i = [vec_i = zl_i] (is-zero gadget on vec_i - zl_i, stated by
+    # Enc.iszero_lemmas) and the cell the Enc knows to be the product of exactly those bits
+    lineset = set(e.lines)
+    bits = []
+    isz = {}
+    for l in e.lines:
+        if l.startswith("(assert (= ") and l.endswith(" 0) 1 0)))") and "(ite (= " in l:
+            parts = l.split()
+            isz[parts[5]] = parts[2]        # (assert (= r (ite (= Lv 0) 1 0)))  ->  Lv: r
+    for i, a in enumerate(vec):
+        got = None
+        for it in e.order:
+            if it[0] == "mod" and len(it[2]) == 1 and tuple(it[2][0]) == (1, a) and (it[3] + zl[i]) % e.P == 0 and it[1] in isz:
+                got = isz[it[1]]
+                break
+        if got:
+            bits.append(got)
+    first = []
+    if len(bits) == len(vec):
+        mk = tuple(sorted(bits))
+        cells = set(e.vars.values())
+        first = [t for t, mo in e.monos_of.items() if tuple(sorted(mo)) == mk and t in cells
+                 and all(h.get(t) == w for h, w in zip(runs, want))]
+    ob_ = getattr(e, "fecc_ob", None)
+    for b in first + [c_ for c_ in cands if c_ not in first][:6]:
+        f = f"(= (= {b} 1) {zeq})"
+        r = solvers.solve(sliced_text(e, f, 12) + f"(assert (not {f}))\n", timeout=max(5, timeout // 10))
+        if ob_ is not None:
+            ob_.queries += 1
+            ob_.solver_s += r.time_s
+        if os.environ.get("FECC_DEBUG"):
+            print(f"   fecc zero-test bit candidate {b}: {r.status} {r.time_s:.1f}s", flush=True)
+        if r.status == "unsat":
+            e.lines.append(f"(assert {f})")
+            e.lines.append(f"(assert (= (= {b} 1) {sem}))")
+            return b
+    return None
+
+
+def guard_of(e, kind, s=None, **known):
+    """SMT Bool: the condition cell of the located group has its enabling value"""
+    hits = locate(e, kind, s=s, **known)
+    return hits[0][0]["guard"] if hits else None
 
 
 def _gob(ob, key, guard, kind):
